@@ -13,7 +13,7 @@ def ex(tech, text, ref, cat="exploration", note=TRUST):
     return (cat, tech, text, note, ref)
 
 CHECKS = {
-    "C01": ex("model-based stateful PBT (rapid): reference map model vs. every read path after every op",
+    "C01": ex("model-based stateful PBT (rapid): reference map model vs. every read path after every op (receivers reused); sparsely encoded objects read through dirty receivers",
               "Generated operation sequences under generated configurations are executed against sod and a reference model; every read path is compared after every step, absent ids are looked up twice, uuids are checked for freshness/stability, and the directory is compared with the model through an independent walker.",
               "DESIGN.md §4 C01"),
     "C02": ex("model-based PBT: generated query chains + exhaustive-per-state search sweep vs. model predicate; metamorphic re-run with complemented index assignment; direct big-index property; sparsely encoded objects (omitempty, renamed members, omitted nil pointers)",
@@ -44,11 +44,11 @@ CHECKS = {
               "Every generated program (all entry points, all configurations, flusher running) is executed single-threaded under a lock monitor that flags re-entrant read acquisitions, self deadlocks and lock-order cycles deterministically, then concurrently with perturbation under a watchdog that declares a hang only when all workers sit in lock acquisitions on two samples.",
               "DESIGN.md §4 C09", "exploration",
               TRUST + " 'For every call path' is approximated dynamically: a nested acquisition on a path no generated program executes is missed (evidence lists the entry points executed)."),
-    "C10": ex("model-based stateful PBT under a harness-owned virtual clock: visibility after every op, deadline-based disk oracle through an independent walker, second-handle differential after flush/Close, collections sharing one Schema value, age rule (no accepted write older than timeout + 2 steps off disk, whatever calls arrive), restart-with-corruption-and-Repair op; real-clock runs: async off/on back to back with thousands of writes pending, writers hammering their own objects under a constantly firing flusher (last accepted value must be on disk after Close); plus generated readers-vs-flusher liveness runs on a scaled clock",
+    "C10": ex("model-based stateful PBT under a harness-owned virtual clock: visibility after every op, deadline-based disk oracle through an independent walker, second-handle differential after flush/Close, collections sharing one Schema value, age rule (no accepted write older than timeout + 2 steps off disk, whatever calls arrive), restart-with-corruption-and-Repair op; real-clock runs: async off/on back to back with thousands of writes pending, writers hammering their own objects under a constantly firing flusher (last accepted value must be on disk after Close), Close meeting a storage fault at every position and being retried; plus generated readers-vs-flusher liveness runs on a scaled clock",
               "time.Sleep of the working-tree copy is redirected to a virtual clock, so threshold/timeout driven flushes are stepped deterministically; liveness is checked as 'on disk by an explicit conservative virtual-time deadline'.",
               "DESIGN.md §4 C10", "exploration",
               TRUST + " Assumes the flusher measures time only through time.Sleep/After/Ticker."),
-    "C11": ex("generated fault sets applied to generated databases; set-based oracle for detection (iff), file-content oracle after Repair",
+    "C11": ex("generated fault sets applied to generated databases; set-based oracle for detection (iff), file-content oracle after Repair; damage also under a live handle; two collections per handle",
               "After a generated history the directory is damaged from outside (files removed/added, index entries removed, schema removed, internal inconsistency); detection must match the set difference exactly (no false positives on healthy databases of any configuration), Repair must not touch object files and must make every read path equal predicates on decoded file contents.",
               "DESIGN.md §4 C11"),
     "C12": ex("differential PBT: one generated program under two independently drawn configurations, normalised traces compared line by line; plus the same differential on collections of about 9000 objects",
@@ -70,7 +70,7 @@ CHECKS = {
               "Refusals must carry the predicted sentinel on every operation and leave the directory byte-identical; compatible Create is idempotent; cache/async switches at arbitrary points never lose or stale a write and never kill the process.",
               "DESIGN.md §4 C17", "exploration",
               TRUST + " The current-shape side is a finite hand-written family of 18 shapes (Go types are static)."),
-    "C18": ex("independent directory walker/decoder on generated histories + golden corpus written by the pinned release, opened, extended and re-walked",
+    "C18": ex("independent directory walker/decoder on generated histories + golden corpus written by the pinned release (40 Doc directories + one directory of a struct of defined / container / interface field types), opened, extended and re-walked",
               "No sod code is used to judge the layout; 40 directories produced by the pinned release under 26 configurations must open with identical contents, search behaviour and constraints, and stay loadable after generated further writes.",
               "DESIGN.md §4 C18", "exploration",
               TRUST + " Trusted additionally: the golden corpus under /verif/golden (verified against the model by the walker when it was recorded)."),
